@@ -14,14 +14,6 @@ From Inferno Require C05.Conn C05.ConnSpec C05.ConnProofs.
 Import ListNotations.
 Open Scope R_scope.
 
-(* the documented response of each synapse class to the inputs older than k steps, for synapse element e *)
-Definition shifted_response (c : cfgR) (p : pastR) (k e : nat) : R :=
-  match ckind RN c with
-  | KDelta => isum (resp_delta (cQ RN c) (cdt RN c)) (skipn k (btrain p e))
-  | KDeltaPlus => isum (resp_delta (cQ RN c) (cdt RN c)) (skipn k (train p e)) + injected (skipn k p) e
-  | KSingleExp => isum (resp_exp (cQ RN c / ctau RN c) (cdt RN c) (ctau RN c)) (skipn k (train p e))
-  | KDoubleExp => isum (resp_dexp (cQ RN c) (cdt RN c) (ctau RN c) (ctr RN c)) (skipn k (train p e))
-  end.
 
 Lemma value_ago_shifted_response (c : cfgR) (p : pastR) k e : Forall (entry_ok RN c) p -> (e < nel (cshape RN c))%nat ->
   value_ago c p k e = shifted_response c p k e.
@@ -68,8 +60,6 @@ Qed.
 End DenseClosed.
 
 (* ---- delays between grid points, exponential classes: the exact continuous-time shift ---- *)
-(* time elapsed between the older bracketing step and the delayed instant *)
-Definition since_older (c : cfgR) (t : R) : R := IZR (Zceil (t / cdt RN c)) * cdt RN c - t.
 
 Theorem between_cur_single_exp_is_continuous_shift (c : cfgR) (p : pastR) e t : ckind RN c = KSingleExp ->
   Forall (entry_ok RN c) p -> (e < nel (cshape RN c))%nat ->
@@ -124,3 +114,84 @@ Proof.
   exists s', out. split; [exact E|exact Hv].
 Qed.
 End Reachable.
+
+(* ---- heterogeneous delays, relational form at the level of CONNECTIONS ----
+   Split the weights by delay: W_K[o,i] = W[o,i] where the synapse's delay is K steps, 0 elsewhere.  The delayed connection's
+   output is the bias plus the sum over K of the outputs of the UNDELAYED, unbiased connection with weights W_K on the input
+   history shifted by K steps.  (This is the decomposition the direct oracle evaluates with real undelayed copies.) *)
+Lemma Rsum_indicator n k a : (k < n)%nat -> Rsum n (fun K => if (K =? k)%nat then a else 0) = a.
+Proof.
+  induction n as [|n IH]; intros Hk; [lia|]. cbn [ConnSpec.Rsum].
+  destruct (Nat.eqb_spec n k) as [->|Hne].
+  - rewrite ConnProofs.Rsum_zero; [ring|]. intros i Hi. destruct (Nat.eqb_spec i k); [lia|reflexivity].
+  - rewrite IH by lia. ring.
+Qed.
+Lemma Rsum_swap n m (f : nat -> nat -> R) : Rsum n (fun a => Rsum m (fun b => f a b)) = Rsum m (fun b => Rsum n (fun a => f a b)).
+Proof.
+  induction n as [|n IH]; cbn [ConnSpec.Rsum].
+  - symmetry. apply ConnProofs.Rsum_zero. intros; reflexivity.
+  - rewrite IH, <- ConnProofs.Rsum_plus. reflexivity.
+Qed.
+
+
+Theorem dense_delayed_eq_sum_of_undelayed_connections
+  (k : dense RN) (c : cfgR) (s : synR) (p : pastR) xsh xs inj d (kk : nat -> nat -> nat) (Kmax : nat) :
+  Inv RN c s p -> cfg_ok c -> cshape RN c = [dn_B RN k; dn_I RN k] ->
+  is_mat (dn_O RN k) (dn_I RN k) (dn_w RN k) -> bias_ok (dn_O RN k) (dn_b RN k) -> (0 < dn_O RN k)%nat ->
+  Conn.flat_shape xsh = [dn_B RN k; dn_I RN k] -> entry_ok RN c (xs, inj) ->
+  dn_d RN k = Some d -> cdelay RN c <> 0 ->
+  (forall o i, (o < dn_O RN k)%nat -> (i < dn_I RN k)%nat -> on_grid_delay c (mat_at d o i) (kk o i) /\ (kk o i <= Kmax)%nat) ->
+  exists s' out, dense_forward RN k c s xsh xs inj = (s', SOk (dn_B RN k :: dn_out RN k, out)) /\
+    forall b o, (b < dn_B RN k)%nat -> (o < dn_O RN k)%nat ->
+      nth (b * dn_O RN k + o) out 0 =
+      bias_at (dn_b RN k) o +
+      Rsum (S Kmax) (fun K => undelayed_part c ((xs, inj) :: p) (dn_w RN k) kk (dn_I RN k) K b o).
+Proof.
+  intros I Hc Hshape HW Hb HO Hxsh Hx Hd Hdel Hg.
+  destruct (dense_delayed_eq_undelayed_on_shifted k c s p I Hc Hshape HW Hb HO xsh xs inj Hxsh Hx d Hd Hdel kk
+              (fun o i Ho Hi => proj1 (Hg o i Ho Hi))) as (s' & out & E & Hv).
+  exists s', out. split; [exact E|]. intros b o Hbb Ho. rewrite (Hv b o Hbb Ho). rewrite Rplus_comm. f_equal.
+  unfold undelayed_part. rewrite Rsum_swap. apply ConnProofs.Rsum_ext. intros i Hi.
+  destruct (Hg o i Ho Hi) as (_ & Hk).
+  symmetry. etransitivity; [|apply (Rsum_indicator (S Kmax) (kk o i)); lia].
+  apply ConnProofs.Rsum_ext. intros K HK. unfold masked_weight.
+  rewrite (Nat.eqb_sym (kk o i) K). destruct (Nat.eqb_spec K (kk o i)) as [->|Hne]; [reflexivity|ring].
+Qed.
+
+(* undelayed_part is, entry by entry, the forward output of the undelayed unbiased connection with the weights W_K, run on
+   the history shifted by K steps *)
+Lemma masked_matrix_is_mat W kk K NO NI : is_mat NO NI (masked_matrix W kk K NO NI).
+Proof.
+  unfold masked_matrix. split; [rewrite map_length, seq_length; reflexivity|].
+  intros r Hr. apply in_map_iff in Hr. destruct Hr as (o & <- & _). rewrite map_length, seq_length. reflexivity.
+Qed.
+Lemma masked_matrix_at W kk K NO NI o i : (o < NO)%nat -> (i < NI)%nat ->
+  mat_at (masked_matrix W kk K NO NI) o i = masked_weight W kk K o i.
+Proof.
+  intros Ho Hi. unfold ConnSpec.mat_at, masked_matrix.
+  rewrite (ConnProofs.nth_map_lt _ _ _ 0%nat) by (rewrite seq_length; exact Ho). rewrite seq_nth by exact Ho.
+  rewrite (ConnProofs.nth_map_lt _ _ _ 0%nat) by (rewrite seq_length; exact Hi). rewrite seq_nth by exact Hi. reflexivity.
+Qed.
+
+Theorem undelayed_part_is_undelayed_forward
+  (k : dense RN) (c : cfgR) (p : pastR) xsh (kk : nat -> nat -> nat) (K : nat) (s0 : synR) (q : pastR) x0 inj0 :
+  cshape RN c = [dn_B RN k; dn_I RN k] -> (0 < dn_O RN k)%nat -> Conn.flat_shape xsh = [dn_B RN k; dn_I RN k] ->
+  Forall (entry_ok RN c) p ->
+  shifted (undelayed c) p K = (x0, inj0) :: q -> Inv RN (undelayed c) s0 q ->
+  exists s0' out, dense_forward RN (dense_part k kk K) (undelayed c) s0 xsh x0 inj0 = (s0', SOk (dn_B RN k :: dn_out RN k, out)) /\
+    forall b o, (b < dn_B RN k)%nat -> (o < dn_O RN k)%nat ->
+      nth (b * dn_O RN k + o) out 0 = undelayed_part c p (dn_w RN k) kk (dn_I RN k) K b o.
+Proof.
+  intros Hshape HO Hxsh Hp Hsh I0.
+  assert (Hx0 : entry_ok RN (undelayed c) (x0, inj0)).
+  { pose proof (shifted_entry_ok c p K Hp) as H. rewrite Hsh in H. inversion H; assumption. }
+  destruct (dense_undelayed_forward (dense_part k kk K) (undelayed c) s0 q I0 Hshape
+              (masked_matrix_is_mat _ _ _ _ _) (fun bv (E : None = Some bv) => False_ind _ (eq_ind None (fun o => match o with None => True | Some _ => False end) Logic.I _ E))
+              HO xsh x0 inj0 Hxsh Hx0 eq_refl) as (s0' & out & E & _ & _ & Hv).
+  exists s0', out. split; [exact E|]. intros b o Hbb Ho.
+  etransitivity; [exact (Hv b o Hbb Ho)|].
+  change (dn_I RN (dense_part k kk K)) with (dn_I RN k). change (dn_O RN (dense_part k kk K)) with (dn_O RN k).
+  change (dn_b RN (dense_part k kk K)) with (@None (list R)). cbn [ConnSpec.bias_at]. rewrite Rplus_0_r.
+  unfold undelayed_part. rewrite Hsh. apply ConnProofs.Rsum_ext. intros i Hi. f_equal.
+  apply masked_matrix_at; assumption.
+Qed.
